@@ -172,6 +172,44 @@ def run(ctx):
         y = outcome(Timing, SampleIntervalMode.IRREGULAR, None, None, None, V[d])
         if x[0] != y[0] or (x[0] == "ok" and x[1] != y[1]) or (x[0] == "err" and x[1] != y[1]):
             ctx.violation(what="create_with_irregular_interval", args=[d], observed=show(x), required=show(y))
+    # Timing objects that were not built by a constructor call of the user but handed out by the library (the timing of a waveform
+    # after appends, conversions to another family, copies): the same rules - has_* say which members exist, absent members raise
+    # RuntimeError, == a directly constructed Timing with the same members
+    import copy as _copy
+    import pickle as _pickle
+    import numpy as np
+    from nitypes.waveform import AnalogWaveform, DigitalWaveform
+    d0, sec = V["Dd"], dt.timedelta(seconds=1)
+    def irr(n, t0=0):
+        return Timing.create_with_irregular_interval([d0 + (t0 + k) * sec for k in range(n)])
+    derived = []
+    for mkw in (lambda n, t: AnalogWaveform.from_array_1d(np.zeros(n), np.float64, timing=t), lambda n, t: DigitalWaveform.from_lines(np.zeros((n, 1), np.uint8), timing=t)):
+        w = mkw(2, irr(2)); w.append(np.zeros(2) if isinstance(w, AnalogWaveform) else np.zeros((2, 1), np.uint8), [d0 + 5 * sec, d0 + 6 * sec])
+        derived.append(("append(array, timestamps)", w.timing, Timing.create_with_irregular_interval([d0, d0 + sec, d0 + 5 * sec, d0 + 6 * sec])))
+        w = mkw(2, irr(2)); w.append(mkw(2, irr(2, 7)))
+        derived.append(("append(waveform)", w.timing, Timing.create_with_irregular_interval([d0, d0 + sec, d0 + 7 * sec, d0 + 8 * sec])))
+        w = mkw(2, irr(2)); w.append([mkw(1, irr(1, 3)), mkw(2, irr(2, 7))])
+        derived.append(("append([waveforms])", w.timing, Timing.create_with_irregular_interval([d0, d0 + sec, d0 + 3 * sec, d0 + 7 * sec, d0 + 8 * sec])))
+        w = mkw(0, irr(0)); w.append(mkw(2, irr(2, 7)))
+        derived.append(("append onto empty", w.timing, irr(2, 7)))
+        reg = Timing.create_with_regular_interval(sec, d0, sec)
+        w = mkw(2, reg); w.append(mkw(1, Timing.create_with_regular_interval(sec)))
+        derived.append(("regular receiver after append", w.timing, reg))
+        w = mkw(2, reg); w.sample_count = 1
+        derived.append(("after sample_count", w.timing, reg))
+    for t in (Timing.create_with_regular_interval(sec, d0, sec), Timing.create_with_no_interval(d0), irr(3), Timing.empty):
+        derived += [("copy", _copy.copy(t), t), ("deepcopy", _copy.deepcopy(t), t), ("pickle", _pickle.loads(_pickle.dumps(t)), t),
+                    ("to_datetime", t.to_datetime(), t), ("to_hightime().to_datetime()", t.to_hightime().to_datetime(), t)]
+    for label, got, twin in derived:
+        ctx.case(("derived-timing", label, twin.sample_interval_mode.name))
+        obs = lambda t: outcome(lambda: (t.sample_interval_mode, t.has_timestamp, t.has_start_time, t.has_time_offset, t.has_sample_interval,
+                                         [outcome(getattr, t, n)[:2] if outcome(getattr, t, n)[0] == "err" else ("ok", outcome(getattr, t, n)[1])
+                                          for n in ("timestamp", "time_offset", "sample_interval", "start_time")]))
+        a, b = obs(got), obs(twin)
+        eq = outcome(lambda: (got == twin, twin == got, got != twin))
+        if a != b or eq != ("ok", (True, True, False)):
+            ctx.violation(what="a Timing handed out by the library does not behave like the Timing with the same members", how=label,
+                          observed=f"{show(a)[:200]} ==:{show(eq)[:60]}", required=f"{show(b)[:200]} ==:(True, True, False)")
     # equality: equal iff modes and all members equal
     objs = []
     for mname in ("NONE", "REGULAR", "IRREGULAR"):
